@@ -35,13 +35,25 @@ SPEC = dict(
                 "neither defer_tick nor a cycle depends on the current tick only, whatever the earlier ticks were "
                 "(`tick_state_no_leak`, `tick_state_no_leak_run`); defer_tick and a tick cycle deliver exactly the previous "
                 "tick's content and nothing in the first tick (`deferTick_one_tick_later`, `tickCycle_one_tick_later`); "
+                "a tick cycle with an INITIAL value (`Tick::cycle_with_initial`, behind `sliced!{use::state}`) over an Optional "
+                "reads the initial value in the first tick and afterwards exactly what the previous tick sent — null after a "
+                "tick that sent null, however non-null the initial collection still is (`optionalCycle_initial_only_first_tick`, "
+                "`optionalCycle_null_stays_null`; Singleton: `singletonCycle_initial_only_first_tick`), proved on the "
+                "transcription of hydro_lang's create_source_with_initial (`from_previous_tick.or(initial.filter_if("
+                "optional_first_tick(()).is_some()))` out of ChainFirst / DeferTick / SingletonSource{first_tick_only} / "
+                "CrossSingleton nodes), whose source text — with filter_if, is_some, into_singleton, zip/or inside a tick, "
+                "Tick::cycle[_with_initial], optional_first_tick — is re-extracted every run (`cycle_sources_match`); "
+                "`Optional::or`/`unwrap_or` = first non-null (`tick_op_eq_list_op_or`), `tick.singleton` every tick / "
+                "`optional_first_tick` first tick only (`singletonSource_every_tick_firstTick_only_first`); "
                 "across_ticks(fold) continues from the previous tick's accumulator (`acrossTicks_accumulates`); sort returns a "
                 "permutation that is pairwise ordered by the element order, proved a total order (`tick_op_eq_list_op_sort`). "
                 "The tick model `evalAt` is denotational (a collection is a function of the tick history), so the tick_op / "
                 "no-leak theorems unfold it; what carries the 'tick lifetime is `tick_persistence_machine_no_leak` (added in "
                 "review): an operator state machine whose cell is re-initialised by write_tick_end after every tick equals the "
-                "per-batch function, whatever state it started from. Tie: 54 tick programs "
-                "(all operators, defer_tick, tick cycles, across_ticks) compiled through FlowBuilder::generate_embedded, run "
+                "per-batch function, whatever state it started from. Tie: 79 tick programs "
+                "(all operators, defer_tick on streams and optionals, stream tick cycles, Optional cycles with an initial "
+                "value whose body sends null while the initial is non-null, plain Optional cycles, Singleton cycles with "
+                "initial, across_ticks; cycle programs also run over 3..7 ticks) compiled through FlowBuilder::generate_embedded, run "
                 "tick by tick with random batches; every tick's output is diffed with the Lean driver and checked on the real "
                 "code against plain Rust iterators and against a fresh single-tick instance (state leak); added in review: "
                 "`lazyDefer_does_not_schedule_tick` — on a hand-transcribed model of run_available_sync + the end-of-tick "
@@ -54,7 +66,9 @@ SPEC = dict(
                 "table incl. tick_state_lifetime = 'tick and DeferTick -> defer_tick_lazy is re-extracted every run "
                 "(theorem lowering_table_matches of C28)."),
     level_note=("Trusted / not modelled: per-tick semantics of the DFIR operators transcribed by hand (tied by correspondence); "
-                "one tick cycle of element type i64 per program; max/min are instances of reduce; hash order of keyed fold output canonicalised by sorting; ticks are driven explicitly by "
+                "one tick cycle per program (a Stream, Optional or Singleton of i64; Optional/Singleton with or without initial value); "
+                "the library code that assembles cycle_with_initial is pinned textually (whitespace-normalised function "
+                "bodies), not parsed; KeyedSingleton / KeyedStream cycles and `sliced!` state syntax itself are not in the corpus; max/min are instances of reduce; hash order of keyed fold output canonicalised by sorting; ticks are driven explicitly by "
                 "run_tick_sync in the model; the scheduler model behind lazyDefer_does_not_schedule_tick (run_available_sync, "
                 "the `if false || !buf.is_empty()` test of meta_graph.rs, which handoffs are lazy) is transcribed by hand and "
                 "tied only by the run_available oracle on the real code, with input streams that never wake the runtime; keyed collections inside a tick other than fold_keyed are not modelled."),
